@@ -75,7 +75,8 @@ class C13(PropBase):
             "sharing modules, hostile CFI / STACK WIN, Linux streams) plus targeted families: many-line /proc limits, arm64 CFI with "
             "aliasing targets (x29/fp, x30/lr), two modules with one leaf name, evil-json certificates listing one module twice, "
             "Linux key/value streams (lsb/status/cpuinfo/environ/limits) over the key literals of the readers with conflicting duplicates, "
-            "33..80 threads with a per-module suspension script (completion order != thread order); rendering 0 is the synchronous one and "
+            "33..80 threads with a per-module suspension script (completion order != thread order), CFI rules that leave the evaluator early "
+            "after a push (state leaking between evaluations), PUBLIC records sharing an address; rendering 0 is the synchronous one and "
             "threads[] must be in thread-list order. "
             "R cases: names of the proc_limits array against the model; E: cert_subject per module; L: lsb_release fields, text line, pid, microcode. Non-trivial = at least one thread processed; "
             "distinct = distinct case lines")
@@ -112,7 +113,9 @@ class C13(PropBase):
                 "(key table regenerated from the match arms; c13_lsb_last_wins, c13_lsb_report_determined) and the HashMap-then-fold variant is refuted; "
                 "walks that mutate their own slot of state.threads give the same thread list under every interleaving (c13_walks_in_place_*), "
                 "collecting results in completion order is refuted; every HashMap/HashSet iteration and every future combinator the source scan finds "
-                "is one of the enumerated, classified sites (c13_hash_sites_modelled, c13_concurrency_sites_modelled). Everything beyond these cores is checked by a direct oracle only: the same input processed "
+                "is one of the enumerated, classified sites (c13_hash_sites_modelled, c13_concurrency_sites_modelled), likewise every thread_local / "
+                "static mut / interior-mutable static (c13_shared_state_sites_modelled); the proc_limits pipeline from the stream bytes is order "
+                "independent with no hypothesis left (c13_limits_pipeline_order_independent). Everything beyond these cores is checked by a direct oracle only: the same input processed "
                 ">= 13 times in-process (fresh hash seeds; first synchronously, then under three executors with rotated supplier delays / per-module "
                 "suspension counts) must give byte-identical JSON and text with threads[] in thread-list order.",
         "note": "Trusted: Coq kernel; hand-written models (limits renderer correspondence-checked here, Symbolizer model by C12); the oracle is search, not proof. "
